@@ -411,7 +411,7 @@ fn run_context(ctx: &Ctx, cons: &Consensus, c: &Context, which: Option<&str>, re
 pub fn meta(_tier: Tier) -> Meta {
     Meta {
         id: "C03",
-        level: "model_checking",
+        level: "exploration",
         rule: "contexts (flat world, 4-block epochs, window 2..4, two uncles max): tip 5 with proposals at every distance 1..5 from the candidate height and sibling / fork blocks at heights 3..6; tip 7 where the candidate opens an epoch; tip 6 that already includes an uncle; tip 5 reached through a detour (p1..p3, a four-block competing branch overtakes, p4 and p5 overtake again, so verified blocks are re-attached before the candidate is judged). Catalogue per context: valid candidates on the boundary of each rule (timestamp median+1 and now+15s, commit at the closest and farthest window edge, two uncles, an uncle whose fork parent is embedded before it, proposals exactly at the limit, 96-byte extension, epoch head, sibling / child of an included uncle) and single-rule violations (number, epoch index / length / number / malformed, target, unknown parent, timestamp = median and now+15s+1ms; cellbase missing / second / twice / wrong input / bad witness; reward +1 / -1 / other lock / split / absent; DAO bit; transactions root, proposals hash, extra hash; extension missing / empty / 31 bytes / wrong root / 97 bytes; proposals over the limit / duplicate; uncles: three, previous epoch, twice, a main-chain block, same height, fork parent not embedded or embedded after, other target, bad proposals hash, included before, of the closing epoch; commit: proposed in the gap, expired, never, in the same block, double spend, duplicate). Every candidate is submitted through HeaderVerifier + parent check + chain service (the submit_block pipeline): valid => Ok(true), tip = candidate, store = replay of the new chain; invalid => error, tip unchanged, store = replay of the old chain. Every invalid candidate is also delivered as a side block under a main chain that is one block ahead, followed by a child and a grandchild: the tip must never leave the main chain, the child that would make the branch canonical is reported failed, the store equals the replay of the main chain.",
         assumptions: &["proof of work is the dummy engine in this world (Eaglesong acceptance is C07's subject)", "block size and cycle limits are exercised in C13's worlds, not here", "contexts are designed, not random histories"],
         bounds: json!({"contexts": 4}),
